@@ -574,6 +574,16 @@ fn check(c: &Case, obs: &mut Obs) -> Verdict {
         }
     }
     for sub in e.subtrees() {
+        if let Expr::Binary { op, l, r } = sub {
+            if op == "+" || op == "-" {
+                let starts_rel = matches!(&**r, Expr::Ref(rn) if rn.area.abs_kind() != "abs");
+                match &**l {
+                    Expr::Name { name, .. } if sci_like_name(name).is_some() && starts_rel => obs.class("sci-like-name:before-sign+relative-ref"),
+                    Expr::Num(n) if n.contains('E') && starts_rel => obs.class("sci-number:before-sign+relative-ref"),
+                    _ => {}
+                }
+            }
+        }
         if let Expr::Intersect(l, r) = sub {
             if matches!(**l, Expr::Paren(_) | Expr::Func { .. }) {
                 obs.class("intersect:after-close-paren");
